@@ -5,6 +5,7 @@ import (
 	"flag"
 	"fmt"
 	"os"
+	"strings"
 	"time"
 
 	"github.com/awslabs/ar-go-tools/internal/zzverif/drv"
@@ -99,5 +100,31 @@ func crashCmd(args []string) int {
 		o.emit(rec)
 	}
 	fmt.Fprintf(os.Stderr, "DONE\n")
+	return 0
+}
+
+func init() { subcmds["dump-subjects"] = dumpSubjectsCmd }
+
+// dumpSubjectsCmd writes a family as JSON lines {sig, atoms, src} (input of the schedule worker vps).
+func dumpSubjectsCmd(args []string) int {
+	fs := flag.NewFlagSet("dump-subjects", flag.ExitOnError)
+	bounds, _, outp := commonFlags(fs)
+	fam := fs.String("family", "snippets", "program family")
+	pick := fs.String("pick", "", "comma-separated signatures to keep (default: all)")
+	fs.Parse(args)
+	keep := map[string]bool{}
+	for _, p := range strings.Split(*pick, ";") {
+		if p != "" {
+			keep[p] = true
+		}
+	}
+	o := newOut(*outp)
+	defer o.close()
+	for _, s := range subjects(*fam, *bounds) {
+		if len(keep) > 0 && !keep[s.Sig] {
+			continue
+		}
+		o.emit(map[string]any{"sig": s.Sig, "atoms": s.Atoms, "src": s.Src})
+	}
 	return 0
 }
